@@ -3,6 +3,7 @@
 //! const-evaluability while this crate is built; ./check turns "plain builds, konst does not"
 //! into VIOLATION property=C20 with the compiler diagnostics as the replay file.
 #![no_std]
+use c20_shared::BigLayout;
 use pc_keyboard::layouts::*;
 use pc_keyboard::*;
 
